@@ -4,6 +4,7 @@ go 1.22.0
 
 require (
 	golang.org/x/crypto v0.31.0
+	golang.org/x/net v0.33.0
 	golang.org/x/text v0.21.0
 	mellium.im/sasl v0.3.2
 	mellium.im/xmlstream v0.15.4
@@ -11,7 +12,6 @@ require (
 )
 
 require (
-	golang.org/x/net v0.33.0 // indirect
 	golang.org/x/sys v0.28.0 // indirect
 	mellium.im/reader v0.1.0 // indirect
 )
